@@ -259,7 +259,7 @@ func ruleLintStale(c *Ctx, r *Rep) {
 				}
 				// (b) a struct variable declared outside the loop whose fields are assigned conditionally inside and which is copied per element
 				if u, ok := st.Val.(*ssa.UnOp); ok && u.Op == token.MUL {
-					if al, ok := u.X.(*ssa.Alloc); ok && !al.Heap && !inLoop(al.Block()) && isStructPtr(al.Type()) && !dominatedByFullReset(al, u) {
+					if al, ok := u.X.(*ssa.Alloc); ok && !al.Heap && declaredOutsideLoopOf(al, b) && isStructPtr(al.Type()) && !dominatedByFullReset(al, u) {
 						partial := false
 						for _, ref := range *al.Referrers() {
 							if fa, ok := ref.(*ssa.FieldAddr); ok && inLoop(fa.Block()) {
@@ -450,5 +450,85 @@ func ruleGuardPemRest(c *Ctx, r *Rep) {
 		}
 		ok, how := propagates(c, e, ci)
 		r.Check(ok, key, c.Pos(ci.Pos()), "a block that does not parse is an error", how)
+	}
+}
+
+// innermostLoopHeader: the deepest block that dominates b and has a back edge (a predecessor it dominates)
+// from which b is reachable inside the loop.
+func innermostLoopHeader(b *ssa.BasicBlock) *ssa.BasicBlock {
+	for d := b; d != nil; d = d.Idom() {
+		for _, p := range d.Preds {
+			if d.Dominates(p) && (p == b || reachableWithin(b, p, d)) {
+				return d
+			}
+		}
+	}
+	return nil
+}
+
+// reachableWithin: from can reach to without passing through header.
+func reachableWithin(from, to, header *ssa.BasicBlock) bool {
+	seen := map[*ssa.BasicBlock]bool{header: true}
+	var walk func(x *ssa.BasicBlock) bool
+	walk = func(x *ssa.BasicBlock) bool {
+		if x == to {
+			return true
+		}
+		if seen[x] {
+			return false
+		}
+		seen[x] = true
+		for _, s := range succs(x) {
+			if walk(s) {
+				return true
+			}
+		}
+		return false
+	}
+	if from == header {
+		for _, s := range succs(from) {
+			if walk(s) {
+				return true
+			}
+		}
+		return false
+	}
+	return walk(from)
+}
+
+// declaredOutsideLoopOf: the variable's allocation is not repeated by the innermost loop around block b.
+func declaredOutsideLoopOf(al *ssa.Alloc, b *ssa.BasicBlock) bool {
+	h := innermostLoopHeader(b)
+	if h == nil {
+		return false
+	}
+	return !h.Dominates(al.Block())
+}
+
+func init() {
+	register(&Rule{Name: "TBS-WRITERS", Floor: 15, Run: ruleTbsWriters,
+		Doc: "who may write which field of the to-be-signed certificate: the context constructor (version, fresh serial, validity, subject, placeholder issuer), the body builder (configured serial, unique ids, request key, the four TBS manipulations), the key setters (SubjectPublicKeyInfo), SetIssuer and the signing function (inner algorithm, issuer, extensions); any other store into a TbsCertificate field is a violation"})
+}
+
+// tbsWriters: the confirmed writers of TbsCertificate fields (function -> field paths).
+var tbsWriters = map[string]map[string]string{
+	"cert.NewCertificateContext": {"Version": "v3", "SerialNumber": "fresh random serial", "Validity.NotBefore": "", "Validity.NotAfter": "", "Subject": "", "Issuer": "placeholder: self"},
+	"generator.BuildCertBody": {"SerialNumber": "configured serial", "IssuerUniqueId": "", "SubjectUniqueId": "", "PublicKey": "request key", "Version": "manipulation",
+		"SignatureAlgorithm": "manipulation", "PublicKey.Algorithm": "manipulation", "PublicKey.PublicKey": "manipulation"},
+	"cert.CertificateContext.SetPrivateKey":      {"PublicKey.Algorithm.Algorithm": "", "PublicKey.Algorithm.Parameters": "", "PublicKey.PublicKey.Bytes": ""},
+	"cert.CertificateContext.GeneratePrivateKey": {"PublicKey.PublicKey.Bytes": ""},
+	"cert.CertificateContext.SetIssuer":          {"Issuer": ""},
+	"cert.CertificateContext.Sign":               {"": "copy of the context's TBS into the certificate", "SignatureAlgorithm": "", "Issuer": "", "Extensions": ""},
+}
+
+func ruleTbsWriters(c *Ctx, r *Rep) {
+	for _, fn := range c.Funcs {
+		fk := c.FuncKey(fn)
+		for _, fs := range storesIntoType(c, fn, "cert.TbsCertificate") {
+			allowed, known := tbsWriters[fk]
+			_, okField := allowed[fs.field]
+			// asn1.Unmarshal(&…Parameters) style fills are stores through calls, not seen here
+			r.Check(known && okField, "writer|"+fk+"|"+fs.field, c.Pos(fs.st.Pos()), "a confirmed writer of this to-be-signed field", sprintf("known writer: %v, field allowed: %v", known, okField))
+		}
 	}
 }
